@@ -4,6 +4,7 @@
    checked by the oracle on generated tables; reference resolution is C29, locales are C30. *)
 From Coq Require Import ZArith List Bool.
 Require Import V.Lib.Val V.Lib.Result V.Lib.Struct V.Axml.PoolModel V.Axml.ArscTypeModel V.Axml.ArscTypeProofs.
+Require V.Axml.ArscTableModel.   (* the stream table-walk of tools/props/c28.py evaluates the model of the walk over the table *)
 Import ListNotations.
 Open Scope Z_scope.
 
